@@ -344,9 +344,6 @@ func judgeDuo(c duo.Case) *pbt.Verdict {
 		if !q.RespClosed || !q.ErrClosed {
 			return v.Failf("request %d was never executed to the end although nothing cancelled it (channels still open at final quiescence)", i)
 		}
-		if len(q.Visits) == 0 {
-			return v.Failf("request %d ended without delivering anything (errors %v)", i, q.Errs)
-		}
 	}
 	return v
 }
